@@ -23,7 +23,7 @@ const FRAME_MUTATIONS: &[&str] = &[
     "close_empty", "close_no_terminator", "query_no_terminator", "query_embedded_nul", "query_empty_body", "execute_empty",
     "execute_no_terminator", "execute_without_bind", "bind_without_parse", "sync_only", "copydata_outside_copy", "copydone_outside_copy", "copyfail_outside_copy", "bind_after_refused_named_parse",
     "password_message", "flush_only", "function_call", "random_garbage", "terminate_with_body", "many_syncs", "custom_command_huge_number",
-    "query_answered_with_non_utf8_error", "parse_answered_with_non_utf8_error",
+    "query_answered_with_non_utf8_error", "parse_answered_with_non_utf8_error", "short_length_then_sync",
 ];
 
 thread_local! {
@@ -57,6 +57,12 @@ fn hostile_frames(rng: &mut Rng, m: &str) -> Vec<u8> {
         "len_0" => frame(b'Q', 0, &[]),
         "len_3" => frame(b'Q', 3, &[]),
         "len_4_unknown_type" => frame(b'~', 4, &[]),
+        // a length below 4 on a message type the pooler passes on without looking inside, then Sync
+        "short_length_then_sync" => {
+            let mut v = frame(*rng.pick(&[b'E', b'P', b'B', b'D', b'd', b'c', b'H']), rng.below(4) as i32, &[]);
+            v.extend(proto::sync());
+            v
+        }
         "len_negative" => frame(*rng.pick(&[b'Q', b'P', b'B', b'X', b'S']), -(rng.range(1, 100000) as i32), &[]),
         "len_gt_body_then_close" => frame(b'Q', 5000, b"select 1"),
         "len_lt_body" => {
@@ -442,7 +448,7 @@ fn ban_leg(seed: u64, rep: &Report) -> Result<(), String> {
     cfg.gset("ban_time", "60");
     cell.start_pgcat(&cfg, &StartOpts::default()).map_err(|e| format!("start: {:?}", e))?;
     let mut adm = cell.pg().admin().map_err(|e| format!("admin: {}", e))?;
-    let seqs = ["bind_after_refused_named_parse", "bind_without_parse", "execute_without_bind", "sync_only", "copydata_outside_copy", "copydone_outside_copy", "copyfail_outside_copy", "close_empty", "describe_empty", "many_syncs", "query_empty_body"];
+    let seqs = ["bind_after_refused_named_parse", "bind_without_parse", "execute_without_bind", "sync_only", "copydata_outside_copy", "copydone_outside_copy", "copyfail_outside_copy", "close_empty", "describe_empty", "many_syncs", "query_empty_body", "short_length_then_sync", "short_length_then_sync"];
     for k in 0..12 {
         let m = *rng.pick(&seqs);
         let in_txn = rng.chance(1, 2);
@@ -480,7 +486,7 @@ pub fn run(tier: &str) -> i32 {
         "C11",
         tier,
         "exploration",
-        "case = protocol state {pre-startup, mid-auth, idle, in transaction, mid-batch, in COPY, admin console} x mutation (14 startup mutations, 40 frame/body/order mutations incl. lengths <4, negative, beyond/below body, 64 MiB declared, unknown types, missing terminators, negative/oversized counts, parameter lengths beyond the frame, embedded NULs, messages in invalid order); after each case: process liveness, a canary transaction on the shared pool_size=1 pool (own correct reply, clean inherited session), a canary on a second pool during the attack, capacity probe and admin console every 10 cases; plus a leg on a pool with two replicas where SHOW BANS must stay empty after every hostile but well-framed sequence; distinct = distinct (state, mutation) pairs",
+        "case = protocol state {pre-startup, mid-auth, idle, in transaction, mid-batch, in COPY, admin console} x mutation (14 startup mutations, 41 frame/body/order mutations incl. lengths <4, negative, beyond/below body, 64 MiB declared, unknown types, missing terminators, negative/oversized counts, parameter lengths beyond the frame, embedded NULs, messages in invalid order); after each case: process liveness, a canary transaction on the shared pool_size=1 pool (own correct reply, clean inherited session), a canary on a second pool during the attack, capacity probe and admin console every 10 cases; plus a leg on a pool with two replicas where SHOW BANS must stay empty after every hostile but well-framed sequence; distinct = distinct (state, mutation) pairs",
     );
     rep.assume("declared lengths are capped at 64 MiB in verdict-bearing cases; memory exhaustion by larger declared lengths is measured (RSS) but not judged");
     rep.assume("panics confined to the sender's task are allowed by the property; they are catalogued, not judged");
